@@ -249,6 +249,8 @@ def build_args(mk: Maker, qual, pnames, fn_sig):
                 vals[name] = mk.struct((4, 5))
             elif short == "valid_for_data":
                 vals[name] = [mk.struct((4, 12)), mk.struct((4, 12))]
+            elif short in ("weighted_linreg", "weighted_rsq"):
+                vals[name] = mk.arr((8,), nan=0) + (np.arange(8.0) if name == "x" else 0.0)  # LAPACK prints on NaN input
             else:
                 vals[name] = mk.arr((8,) if one_d else (7, 8))
         elif name == "layers" and "list[list" in ann:
